@@ -317,8 +317,9 @@ class Ctx:
             return False
         key = cond.get_id()
         if key in self.dcache:
-            return self.dcache[key]
-        nkey = z3.simplify(z3.Not(cond)).get_id()
+            return self.dcache[key][0]
+        ncond = z3.simplify(z3.Not(cond))
+        nkey = ncond.get_id()
         if self.pos < len(self.schedule):
             val, forced = self.schedule[self.pos]
         else:
@@ -336,8 +337,8 @@ class Ctx:
             self.schedule.append((val, forced))
         self.pos += 1
         self.pc.append(cond if val else z3.Not(cond))
-        self.dcache[key] = val
-        self.dcache[nkey] = not val
+        self.dcache[key] = (val, cond)        # the stored term keeps the AST id alive (ids are recycled otherwise)
+        self.dcache[nkey] = (not val, ncond)
         return val
 
     def obligation(self, kind, bad, note=''):
@@ -579,7 +580,7 @@ class SR:
         return self
 
     def __abs__(self):
-        return SR(z3.If(self.t >= 0, self.t, -self.t))
+        return lazy_if(self.t >= 0, self, -self)
 
     def __pow__(self, o):
         if isinstance(o, SR):
@@ -717,7 +718,7 @@ def sym_sqrt(x):
     key = x.t.get_id()
     hit = CTX.sqrt_cache.get(key)
     if hit is not None:
-        return hit
+        return hit[0]
     cst = _const_of(z3.simplify(x.t))
     if cst is not None:
         if cst < 0:
@@ -741,7 +742,7 @@ def sym_sqrt(x):
         CTX.stats['rewrite_queries'] += 1
         if rr == z3.unsat:
             out = cand
-            CTX.sqrt_cache[key] = out
+            CTX.sqrt_cache[key] = (out, x.t)
             CTX.stats['rewrites'] += 1
             CTX.events.append(('sqrt-rewrite', str(ct)[:80]))
             return out
@@ -750,7 +751,7 @@ def sym_sqrt(x):
     CTX.assumes.append(x.t >= 0)
     CTX.defs += [r >= 0, r * r == x.t]
     out = SR(r)
-    CTX.sqrt_cache[key] = out
+    CTX.sqrt_cache[key] = (out, x.t)
     return out
 
 
@@ -760,11 +761,11 @@ def sym_cbrt(x):
     key = ('cbrt', x.t.get_id())
     hit = CTX.sqrt_cache.get(key)
     if hit is not None:
-        return hit
+        return hit[0]
     r = CTX.newvar('cbrt', ('cbrt', x.t))
     CTX.defs += [r * r * r == x.t]
     out = SR(r)
-    CTX.sqrt_cache[key] = out
+    CTX.sqrt_cache[key] = (out, x.t)
     return out
 
 
@@ -790,28 +791,56 @@ def sym_sign(x):
 def sym_abs(x):
     if not isinstance(x, SR):
         return abs(x)
-    return abs(x)
+    return lazy_if(x.t >= 0, x, -x)
+
+
+def _decided(cond):
+    """True/False if the context forces the condition (cheap feasibility queries), else None"""
+    cond = z3.simplify(cond)
+    if z3.is_true(cond):
+        return True
+    if z3.is_false(cond):
+        return False
+    key = ('dec', cond.get_id())
+    hit = CTX.sqrt_cache.get(key)
+    if hit is not None:
+        return hit[0]
+    res = None
+    if CTX.feasible(cond) == z3.unsat:
+        res = False
+    elif CTX.feasible(z3.Not(cond)) == z3.unsat:
+        res = True
+    CTX.sqrt_cache[key] = (res, cond)
+    return res
+
+
+def lazy_if(cond, a, b):
+    """If(cond, a, b) simplified when the path context decides cond"""
+    d = _decided(cond)
+    if d is True:
+        return a
+    if d is False:
+        return b
+    return SR(z3.If(cond, lift(a), lift(b)))
 
 
 def sym_clip(x, lo, hi):
     if not (isinstance(x, SR) or isinstance(lo, SR) or isinstance(hi, SR)):
         return min(max(x, lo), hi)
     t, l, h = lift(x), lift(lo), lift(hi)
-    return SR(z3.If(t < l, l, z3.If(t > h, h, t)))
+    return lazy_if(t < l, lo, lazy_if(t > h, hi, x))
 
 
 def sym_min(a, b):
     if not (isinstance(a, SR) or isinstance(b, SR)):
         return min(a, b)
-    ta, tb = lift(a), lift(b)
-    return SR(z3.If(ta <= tb, ta, tb))
+    return lazy_if(lift(a) <= lift(b), a, b)
 
 
 def sym_max(a, b):
     if not (isinstance(a, SR) or isinstance(b, SR)):
         return max(a, b)
-    ta, tb = lift(a), lift(b)
-    return SR(z3.If(ta >= tb, ta, tb))
+    return lazy_if(lift(a) >= lift(b), a, b)
 
 
 def isclose_term(a, b, rtol=1e-5, atol=1e-8):
@@ -882,3 +911,25 @@ def explore(fn, max_paths=64, on_path=None):
             if not forced:
                 stack.append(full[:i] + [(not d, True)])
     return out, truncated
+
+
+def choose(n, tag='c'):
+    """nondeterministic choice in range(n): forks the path (each alternative is explored)"""
+    CTX.fresh += 1
+    k = CTX.fresh
+    for i in range(n - 1):
+        b = z3.Bool(f"choice_{tag}_{k}_{i}")
+        if CTX.branch(b):
+            return i
+    return n - 1
+
+
+def fresh_real(pfx='f', recipe=None):
+    return SR(CTX.newvar(pfx, recipe))
+
+
+def fresh_sign(pfx='sgn'):
+    """fresh symbol s with s in {-1, +1}"""
+    v = CTX.newvar(pfx)
+    CTX.defs.append(v * v == 1)
+    return SR(v)
